@@ -84,6 +84,28 @@ class Decision:
     def add_units(self, results):
         self.units += results
 
+    def run_battery(self, script, sections, bound, timeout=900):
+        """Native bounded battery on the tree under check (replay source + labelled bounded stand-in)."""
+        import subprocess
+        repo = os.environ.get("PYVC_REPO", "/repo")
+        cmd = [sys.executable, os.path.join(ROOT, "replay", script), repo, ",".join(sections)]
+        t0 = time.time()
+        try:
+            out = subprocess.run(cmd, capture_output=True, text=True, timeout=timeout)
+            data = json.loads(out.stdout.strip().splitlines()[-1])
+            fails = data["failures"]
+            rec = {"name": f"bounded:{script}[{','.join(sections)}]", "ok": not fails, "cases": data["cases"], "bound": bound,
+                   "failing": None, "secs": time.time() - t0}
+            if fails:
+                rec["failing"] = {"battery": script, "first_failure": fails[0], "n_failures": len(fails),
+                                  "replay_cmd": f".venv/bin/python replay/{script} {repo} {fails[0]['section']}"}
+        except Exception as e:
+            rec = {"name": f"bounded:{script}[{','.join(sections)}]", "ok": True, "cases": 0, "bound": bound, "failing": None,
+                   "secs": time.time() - t0, "error": f"battery could not run: {type(e).__name__}: {e}"}
+            self.undecided.append({"unit": rec["name"], "reason": rec["error"]})
+        self.bounded.append(rec)
+        return rec
+
     def totals(self):
         obl = sum(len(u["obligations"]) for u in self.units) + len(self.lean)
         dis = sum(1 for u in self.units for o in u["obligations"] if o["status"] == "proved") + sum(1 for l in self.lean if l["ok"])
@@ -110,12 +132,13 @@ class Decision:
                                                   "detail": l.get("output", "")[-3000:], "model": None, "kind": "lean", "path": None, "solver": "lean", "secs": l.get("secs", 0)}))
         for b in self.bounded:
             if not b["ok"]:
-                failed.append(({"name": "bounded"}, {"name": b["name"], "status": "refuted", "detail": json.dumps(b.get("failing"))[:3000],
+                ff = (b.get("failing") or {}).get("first_failure", {})
+                failed.append(({"name": "bounded"}, {"name": f"{b['name']}:{ff.get('section', '')}:{ff.get('what', '')}", "status": "refuted", "detail": json.dumps(b.get("failing"))[:3000],
                                                      "model": None, "kind": "bounded", "path": None, "solver": "native", "secs": 0, "native": b.get("failing")}))
         # group failures by obligation name
         groups = {}
         for u, o in failed:
-            groups.setdefault(o["name"], []).append((u, o))
+            groups.setdefault(_kind_of(o["name"]), []).append((u, o))
         os.makedirs(REPLAY, exist_ok=True)
         exit_code = 0
         for name, items in sorted(groups.items()):
@@ -131,6 +154,8 @@ class Decision:
                 self.undecided.append({"unit": u["name"], "reason": f"obligation {name} not decided by any solver: {o['detail'][:300]}"})
                 continue
             native = o.get("native")
+            if native is None:
+                native = next((b["failing"] for b in self.bounded if b.get("failing")), None)
             if native is None and replay_hook is not None:
                 try:
                     native = replay_hook(name, o)
@@ -216,6 +241,12 @@ class Decision:
         }
         with open(os.path.join(EVID, f"{self.pid}.json"), "w") as f:
             json.dump(ev, f, indent=1, default=str)
+
+
+def _kind_of(name):
+    """Obligation name without the instantiation brackets of its unit and without call-site line numbers."""
+    import re
+    return re.sub(r"@L\d+", "", re.sub(r"\[[^\]]*\]", "", name))
 
 
 def _uniq(xs):
